@@ -237,6 +237,29 @@ def hunt(ctx, cfg, behs, tag, signature_of, what_of, max_findings=4, live=True, 
     return rows
 
 
+def directed_common():
+    """One directed history (LavaChain vocabulary, validated like the generated ones) that makes the rarest money paths
+    certain in every run: IPRPC funds of three months reach the providers that served the eligible consumer, monthly
+    subscription payouts with a delegator, claims by vault and delegator, a provider unstaked before a distribution."""
+    me = {"a": "NextBlock", "dt": "monthend"}
+    p10 = {"a": "NextBlock", "dt": "plus10"}
+    ne = {"a": "NextEpoch"}
+
+    def relay(p, cu):
+        return {"a": "RelayPay", "cons": "C1", "spec": "S1", "prov": p, "cu": cu}
+    h = [{"a": "IprpcSetData", "cons": "C1", "amt": 100},
+         {"a": "SubBuy", "creator": "C1", "cons": "C1", "plan": "PL1", "months": 12, "auto": False}, ne,
+         {"a": "DsDelegate", "del": "D1", "prov": "P1", "val": "VA1", "amt": 2000},
+         {"a": "IprpcFund", "who": "C2", "spec": "S1", "months": 3, "amt": 1100},
+         relay("P1", 60), me, p10, ne, relay("P1", 60), relay("P2", 10),
+         me, p10, me, p10, ne, ne, ne, ne, relay("P1", 60), me, p10, me, p10, ne,
+         {"a": "DsClaim", "who": "P1", "prov": ""}, {"a": "DsClaim", "who": "D1", "prov": ""},
+         {"a": "DsClaim", "who": "P2", "prov": "P2"},
+         {"a": "Unstake", "prov": "P2", "spec": "S1", "by": "vault", "val": "VA1"},
+         relay("P1", 60), me, p10, me, p10, ne, ne, ne, ne, {"a": "DsClaim", "who": "P1", "prov": "P1"}]
+    return [h]
+
+
 def flatten(fams):
     behs = []
     for fam in FAMILIES:
@@ -274,7 +297,7 @@ def _what(kind, prev, ev, step):
 
 def run(ctx):
     fams = gen_and_design(ctx, plan(ctx, "C09"), ctx.pick(("", "_stake"), ("", "_sub", "_stake", "_iprpc")))
-    behs = flatten(fams)
+    behs = flatten(fams) + directed_common()
     common_cov(ctx, behs)
     rows = hunt(ctx, "Trace_LavaChain_C09.cfg", behs, "hist", _sig, _what)
     burns = sum(1 for r in rows if r["dsup"] < 0)
